@@ -80,6 +80,9 @@ pub struct UdpSc {
     pub steps: Vec<UStep>,
     #[serde(default)]
     pub note: String,
+    /// run with a tracing subscriber that enables every span and event
+    #[serde(default)]
+    pub trace: bool,
 }
 
 const OP_TIMEOUT: Duration = Duration::from_secs(3);
@@ -185,6 +188,10 @@ fn frames_in(mode: SizeMode, burst: &[Vec<u8>]) -> usize {
 }
 
 fn run_udp(sc: &UdpSc) -> UdpRun {
+    crate::tracer::with_tracing(sc.trace, || run_udp_inner(sc))
+}
+
+fn run_udp_inner(sc: &UdpSc) -> UdpRun {
     let mut events = Vec::new();
     let mut peer = match bind_private() {
         Some(s) => s,
@@ -727,6 +734,7 @@ impl Prop for C08 {
             mode,
             steps,
             note: notes.join(","),
+            trace: rng.chance(1, 8),
         }
     }
 
@@ -1174,10 +1182,23 @@ impl Prop for C08 {
                     mode,
                     steps: vec![UStep::Burst(vec![mode.pong().to_vec()])],
                     note: "prelude".into(),
+                    trace: false,
                 });
             }
         }
         v
+    }
+
+    fn repro_variants(&self, sc: &UdpSc) -> Vec<UdpSc> {
+        // tracing keeps a process-wide callsite cache: a case found with `trace: false` while
+        // another worker had a subscriber reproduces on its own only with `trace: true`
+        if sc.trace {
+            vec![]
+        } else {
+            let mut v = sc.clone();
+            v.trace = true;
+            vec![v]
+        }
     }
 
     fn rule(&self) -> String {
